@@ -1054,3 +1054,33 @@ impl VersionSet {
         )
     }
 }
+
+/// Read-only accessors for the `verif` hooks.
+#[cfg(feature = "verif")]
+impl VersionSet {
+    /// File numbers per level of every linked version (oldest first) and the nodes' strong counts.
+    pub(crate) fn verif_versions(&self) -> (Vec<Vec<Vec<u64>>>, Vec<usize>) {
+        let mut all = vec![];
+        let mut counts = vec![];
+        for version in self.versions.iter() {
+            counts.push(Arc::strong_count(&version) - 1);
+            let guard = version.read();
+            let mut levels = vec![];
+            for level in 0..MAX_NUM_LEVELS {
+                levels.push(
+                    guard.element.files[level]
+                        .iter()
+                        .map(|file| file.file_number())
+                        .collect(),
+                );
+            }
+            all.push(levels);
+        }
+        (all, counts)
+    }
+
+    /// The next file number that would be handed out.
+    pub(crate) fn verif_next_file_number(&self) -> u64 {
+        self.curr_file_number + 1
+    }
+}
